@@ -643,3 +643,14 @@ def perm_ok(o, flag):
 
 from pyvc.speclib import is_none, the
 SPEC.update(dict(n_sym=n_sym, attained=attained, perm_ok=perm_ok))
+
+
+def annotation_ok(text, region):
+    """the annotation is the documented text of the region"""
+    acc = True
+    for k, t in _T.REGION_TEXT.items():
+        acc = And(acc, implies(region == k, text == t))
+    return acc
+
+
+SPEC.update(dict(annotation_ok=annotation_ok))
